@@ -59,6 +59,11 @@ pub assume_specification[ str::to_lowercase ](s: &str) -> (r: String) ensures r@
 pub assume_specification[ str::to_ascii_uppercase ](s: &str) -> (r: String) ensures r@ == str_upper(s@);
 pub assume_specification[ str::to_ascii_lowercase ](s: &str) -> (r: String) ensures r@ == str_lower(s@);
 pub assume_specification<'a>[ str::trim ](s: &'a str) -> (r: &'a str) ensures r@ == str_trim(s@);
+// string equality test used by rewrite R17 (a `match` on string literals becomes an if-chain over it): exact in both directions
+#[verifier::external_body]
+pub fn str_is(a: &str, b: &str) -> (r: bool)
+    ensures r == (a@ == b@),
+{ a == b }
 // std combinators that vstd does not specify yet (documented behaviour; a body that uses one stays inside the verifiable subset)
 pub assume_specification<T, E>[ Result::<T, E>::unwrap_or ](s: Result<T, E>, d: T) -> (r: T)
     ensures r == (match s { Ok(v) => v, Err(_) => d });
